@@ -142,4 +142,12 @@ REG = {
   note="Trusted: TLC, reflect.MakeFunc / FuncOf, value projection. Signatures are limited to two parameters.",
   technique="TLA+ call-bridge specification model-checked with TLC; exhaustive replay against reflectively synthesised recording functions",
   design="DESIGN.md section 4/C11"),
+ "C08": dict(
+  text="MC_Purity has no variable through which one operation could influence another (parse = function of text, fresh-runner "
+       "evaluation = function of (tree, data), analysis = function of tree; invariant Functional); every history up to N is "
+       "executed in one process with tree re-use and full tree dumps before/after; a long random history recorded from one "
+       "process is validated by Trace_Purity, whose history variable holds the first observation of every key.",
+  note="Trusted: TLC, the tree dump of the driver (everything reachable through exported fields and accessors).",
+  technique="TLA+ history model checked with TLC; exhaustive history replay + TLC trace validation with a first-observation history variable",
+  design="DESIGN.md section 4/C08"),
 }
